@@ -6,7 +6,7 @@ use crate::analysis::{analyse_all, Outcome};
 use crate::gen::{random_taskset, ArrSwarm, TaskSetSwarm};
 use crate::json::Json;
 use crate::rng::Rng;
-use crate::stats::{run_parallel, Acc, Distinct, Report};
+use crate::stats::{run_parallel_then, Acc, Distinct, Report};
 use crate::uni::{JobSpec, TaskSet, TieRule, Variant, Violation, EDF_VARIANTS, FP_VARIANTS};
 use crate::unisched::{
     bounds_of, gen_schedule, prepare, run_scenario, scenario_legal, Prep, Scenario,
@@ -708,72 +708,74 @@ pub fn run_uni_property(opt: &Options, prop: &'static str) -> i32 {
         nontrivial_fp: &nontrivial_fp,
         inputs_fp: &inputs_fp,
     };
-    let mut acc = run_parallel(budget.inputs, opt.jobs, 60, |k, acc, note| {
+    let fin = |mut acc: Acc| -> i32 {
+        let wall = t0.elapsed().as_secs_f64();
+        let mut cov = Json::obj();
+        cov.set("evaluations", Json::Int(acc.counters.get("runs") as i128));
+        cov.set("distinct_nontrivial", Json::Int(nontrivial_fp.count() as i128));
+        cov.set(
+            "rule",
+            Json::str(
+                "one evaluation = one simulated schedule (release times, execution times, \
+                 non-preemptive structure, tie breaks) of one generated task set under one analysis \
+                 variant, monitored against the bounds returned by the real analysis for every task. \
+                 distinct = distinct 64-bit fingerprints of the kernel's decision/completion log \
+                 (lower bound: bitmap of 2^30 bits); non-trivial = at least one job of a task with an \
+                 Ok bound was delayed by another task's execution in that run",
+            ),
+        );
+        cov.set("distinct_schedules", Json::Int(all_fp.count() as i128));
+        cov.set("distinct_inputs", Json::Int(inputs_fp.count() as i128));
+        cov.set("inputs", Json::Int(acc.counters.get("inputs") as i128));
+        cov.set(
+            "simulated_time_ticks",
+            Json::Int(acc.counters.get("sim_ticks") as i128),
+        );
+        cov.set(
+            "variants",
+            Json::Arr(
+                variants_of(prop)
+                    .iter()
+                    .map(|v| Json::str(v.name()))
+                    .collect(),
+            ),
+        );
+        cov.set(
+            "components",
+            components_json(REAL_STUB_UNI.0, REAL_STUB_UNI.1),
+        );
+        let prop_owned = prop.to_string();
+        let out = finish(
+            opt,
+            &mut acc,
+            wall,
+            cov,
+            &[
+                "the kernel stub implements the scheduling model the property states (DESIGN.md 3.1-3.3)",
+                "admissible release sequences are defined by the library's own number_arrivals (undercounting is C10's business)",
+                "sampling, not proof: task sets of 1-6 tasks, periods <= 120, WCET <= 10, horizon <= 3000 ticks",
+            ],
+            &|r: &Report| {
+                let sc = match parse_uni_replay(&r.replay) {
+                    Ok(s) => s,
+                    Err(e) => {
+                        eprintln!("HARNESS-ERROR: own replay text does not parse: {}", e);
+                        std::process::exit(2);
+                    }
+                };
+                let (m, v) = minimise(&sc, &r.key, 600);
+                let note = header_value(&r.replay, "note").unwrap_or("");
+                (
+                    replay_text(&prop_owned, &m, &v, &format!("{} (minimised from {} jobs / {} tasks)", note, sc.jobs.len(), sc.ts.tasks.len())),
+                    violation_summary(&m, &v),
+                )
+            },
+        );
+        out.exit_code
+    };
+    run_parallel_then(budget.inputs, opt.jobs, 60, |k, acc, note| {
         uni_item(&sh, k, acc, note)
-    });
-    let wall = t0.elapsed().as_secs_f64();
-    let mut cov = Json::obj();
-    cov.set("evaluations", Json::Int(acc.counters.get("runs") as i128));
-    cov.set("distinct_nontrivial", Json::Int(nontrivial_fp.count() as i128));
-    cov.set(
-        "rule",
-        Json::str(
-            "one evaluation = one simulated schedule (release times, execution times, \
-             non-preemptive structure, tie breaks) of one generated task set under one analysis \
-             variant, monitored against the bounds returned by the real analysis for every task. \
-             distinct = distinct 64-bit fingerprints of the kernel's decision/completion log \
-             (lower bound: bitmap of 2^30 bits); non-trivial = at least one job of a task with an \
-             Ok bound was delayed by another task's execution in that run",
-        ),
-    );
-    cov.set("distinct_schedules", Json::Int(all_fp.count() as i128));
-    cov.set("distinct_inputs", Json::Int(inputs_fp.count() as i128));
-    cov.set("inputs", Json::Int(acc.counters.get("inputs") as i128));
-    cov.set(
-        "simulated_time_ticks",
-        Json::Int(acc.counters.get("sim_ticks") as i128),
-    );
-    cov.set(
-        "variants",
-        Json::Arr(
-            variants_of(prop)
-                .iter()
-                .map(|v| Json::str(v.name()))
-                .collect(),
-        ),
-    );
-    cov.set(
-        "components",
-        components_json(REAL_STUB_UNI.0, REAL_STUB_UNI.1),
-    );
-    let prop_owned = prop.to_string();
-    let out = finish(
-        opt,
-        &mut acc,
-        wall,
-        cov,
-        &[
-            "the kernel stub implements the scheduling model the property states (DESIGN.md 3.1-3.3)",
-            "admissible release sequences are defined by the library's own number_arrivals (undercounting is C10's business)",
-            "sampling, not proof: task sets of 1-6 tasks, periods <= 120, WCET <= 10, horizon <= 3000 ticks",
-        ],
-        &|r: &Report| {
-            let sc = match parse_uni_replay(&r.replay) {
-                Ok(s) => s,
-                Err(e) => {
-                    eprintln!("HARNESS-ERROR: own replay text does not parse: {}", e);
-                    std::process::exit(2);
-                }
-            };
-            let (m, v) = minimise(&sc, &r.key, 600);
-            let note = header_value(&r.replay, "note").unwrap_or("");
-            (
-                replay_text(&prop_owned, &m, &v, &format!("{} (minimised from {} jobs / {} tasks)", note, sc.jobs.len(), sc.ts.tasks.len())),
-                violation_summary(&m, &v),
-            )
-        },
-    );
-    out.exit_code
+    }, &fin)
 }
 
 /// Replay of an `engine uni` file: exit 1 + VIOLATION line if the violation reproduces.
@@ -1043,59 +1045,61 @@ pub fn run_c18(opt: &Options) -> i32 {
     let inputs = opt.scaled(if opt.thorough() { 1_500_000 } else { 40_000 });
     let fps = (Distinct::new(28), Distinct::new(26));
     let root = opt.seed;
-    let mut acc = run_parallel(inputs, opt.jobs, 60, |k, acc, note| {
+    let fin = |mut acc: Acc| -> i32 {
+        let wall = t0.elapsed().as_secs_f64();
+        let mut cov = Json::obj();
+        cov.set("evaluations", Json::Int(acc.counters.get("runs") as i128));
+        cov.set(
+            "distinct_nontrivial",
+            Json::Int(acc.counters.get("runs_nontrivial").min(fps.0.count()) as i128),
+        );
+        cov.set(
+            "rule",
+            Json::str(
+                "one evaluation = one analysed entity (task under FP-P / FP-NP, or the task set under \
+                 FIFO) whose arrival curves are attained by their dense sequences over the whole busy \
+                 window: the real analysis is run, the constructive worst-case schedule (dense \
+                 synchronous releases, WCET execution, analysed task loses every tie, NP blocker \
+                 released one tick earlier) is simulated in the kernel and the largest response time \
+                 must EQUAL the bound. distinct = distinct (task set, variant, entity) hashes; \
+                 non-trivial = more than one task and the witness response exceeds the task's own WCET",
+            ),
+        );
+        cov.set("distinct_entities", Json::Int(fps.0.count() as i128));
+        cov.set("distinct_inputs", Json::Int(fps.1.count() as i128));
+        cov.set("simulated_time_ticks", Json::Int(acc.counters.get("sim_ticks") as i128));
+        cov.set("components", components_json(REAL_STUB_UNI.0, REAL_STUB_UNI.1));
+        let out = finish(
+            opt,
+            &mut acc,
+            wall,
+            cov,
+            &[
+                "tightness is demanded only for Periodic, Sporadic and ExtrapolatingCurve inputs whose dense sequence attains number_arrivals on [0, delta) for every delta up to the busy window (checked per input)",
+                "existence of a witness is decided constructively; a bound that is attained only by a schedule outside the constructive family would be reported as slack (none found on the pinned tree)",
+            ],
+            &|r: &Report| {
+                match parse_tight(&r.replay) {
+                    Ok((ts, variant, ent)) => {
+                        let (m, e, rr, ww) = minimise_tight(&ts, variant, ent);
+                        let note = header_value(&r.replay, "note").unwrap_or("");
+                        (
+                            tight_replay_text(&m, variant, e, rr, ww, &format!("{} (minimised from {} tasks)", note, ts.tasks.len())),
+                            format!("{}: bound {} but witness schedule reaches only {}", variant, rr, ww),
+                        )
+                    }
+                    Err(e) => {
+                        eprintln!("HARNESS-ERROR: own replay text does not parse: {}", e);
+                        std::process::exit(2);
+                    }
+                }
+            },
+        );
+        out.exit_code
+    };
+    run_parallel_then(inputs, opt.jobs, 60, |k, acc, note| {
         c18_item(root, k, acc, note, &fps)
-    });
-    let wall = t0.elapsed().as_secs_f64();
-    let mut cov = Json::obj();
-    cov.set("evaluations", Json::Int(acc.counters.get("runs") as i128));
-    cov.set(
-        "distinct_nontrivial",
-        Json::Int(acc.counters.get("runs_nontrivial").min(fps.0.count()) as i128),
-    );
-    cov.set(
-        "rule",
-        Json::str(
-            "one evaluation = one analysed entity (task under FP-P / FP-NP, or the task set under \
-             FIFO) whose arrival curves are attained by their dense sequences over the whole busy \
-             window: the real analysis is run, the constructive worst-case schedule (dense \
-             synchronous releases, WCET execution, analysed task loses every tie, NP blocker \
-             released one tick earlier) is simulated in the kernel and the largest response time \
-             must EQUAL the bound. distinct = distinct (task set, variant, entity) hashes; \
-             non-trivial = more than one task and the witness response exceeds the task's own WCET",
-        ),
-    );
-    cov.set("distinct_entities", Json::Int(fps.0.count() as i128));
-    cov.set("distinct_inputs", Json::Int(fps.1.count() as i128));
-    cov.set("simulated_time_ticks", Json::Int(acc.counters.get("sim_ticks") as i128));
-    cov.set("components", components_json(REAL_STUB_UNI.0, REAL_STUB_UNI.1));
-    let out = finish(
-        opt,
-        &mut acc,
-        wall,
-        cov,
-        &[
-            "tightness is demanded only for Periodic, Sporadic and ExtrapolatingCurve inputs whose dense sequence attains number_arrivals on [0, delta) for every delta up to the busy window (checked per input)",
-            "existence of a witness is decided constructively; a bound that is attained only by a schedule outside the constructive family would be reported as slack (none found on the pinned tree)",
-        ],
-        &|r: &Report| {
-            match parse_tight(&r.replay) {
-                Ok((ts, variant, ent)) => {
-                    let (m, e, rr, ww) = minimise_tight(&ts, variant, ent);
-                    let note = header_value(&r.replay, "note").unwrap_or("");
-                    (
-                        tight_replay_text(&m, variant, e, rr, ww, &format!("{} (minimised from {} tasks)", note, ts.tasks.len())),
-                        format!("{}: bound {} but witness schedule reaches only {}", variant, rr, ww),
-                    )
-                }
-                Err(e) => {
-                    eprintln!("HARNESS-ERROR: own replay text does not parse: {}", e);
-                    std::process::exit(2);
-                }
-            }
-        },
-    );
-    out.exit_code
+    }, &fin)
 }
 
 pub fn replay_tight(path: &str, text: &str) -> i32 {
